@@ -262,7 +262,7 @@ def main(argv=None):
         "wall_s": round(wall, 2), "violations": len({x["obligation"] for x in new_fail}),
     }
     os.makedirs(os.path.join(VERIF, "evidence"), exist_ok=True)
-    if not a.only:
+    if not a.only and not os.environ.get("VERIF_NO_EVIDENCE"):
         json.dump(ev, open(os.path.join(VERIF, "evidence", prop + ".json"), "w"), indent=1)
 
     for k in known_hit:
@@ -313,13 +313,14 @@ def fn_text_hash(u, f):
 
 def default_witness(prop):
     """the property's witness probe on the real crate (/verif/witness/src/bin/<prop>.rs), if there is one"""
-    src = os.path.join(VERIF, "witness", "src", "bin", prop.lower() + ".rs")
+    wdir = os.environ.get("VERIF_WITNESS", os.path.join(VERIF, "witness"))
+    src = os.path.join(wdir, "src", "bin", prop.lower() + ".rs")
     if not os.path.exists(src):
         return None
 
     def run(failed, ctx):
         import subprocess
-        cmd = f"cd {os.path.join(VERIF, 'witness')} && CARGO_NET_OFFLINE=true cargo run -q --offline --bin {prop.lower()}"
+        cmd = f"cd {wdir} && CARGO_NET_OFFLINE=true cargo run -q --offline --bin {prop.lower()}"
         try:
             p = subprocess.run(cmd, shell=True, capture_output=True, text=True, timeout=600)
         except subprocess.TimeoutExpired:
@@ -379,7 +380,8 @@ def undecided(prop, tier, seed, t0, msgs):
                        "trusted_base": [], "undecided": msgs, "samples": []},
           "assumptions": GLOBAL_ASSUMPTIONS, "wall_s": round(time.time() - t0, 2), "violations": 0}
     os.makedirs(os.path.join(VERIF, "evidence"), exist_ok=True)
-    json.dump(ev, open(os.path.join(VERIF, "evidence", prop + ".json"), "w"), indent=1)
+    if not os.environ.get("VERIF_NO_EVIDENCE"):
+        json.dump(ev, open(os.path.join(VERIF, "evidence", prop + ".json"), "w"), indent=1)
     w = witness_on_undecided(prop, None, msgs, {"tier": tier, "seed": seed})
     if w is not None:
         return w
